@@ -20,6 +20,13 @@ type Config struct {
 	Dealer int   // FVSSQ only
 	Byz    []int // scripted Byzantine participants (each has a real shadow instance)
 	Seed   int64
+	// Net: in which round the REACTIVE broadcasts of honest participants land (a complaint sent on
+	// receipt of a bad share, a dealer's answer sent on receipt of a complaint). Such a message is
+	// sent somewhere inside round k, so round-synchronous delivery allows it to land in round k or
+	// in round k+1 (the protocol has the answers round, closed by End, for exactly this reason).
+	// bit 0: honest answers of rounds 1 and 2 land one round later; bit 1: honest complaints of
+	// round 1 land in round 2. The same choice at every receiver (reliable broadcast).
+	Net int
 }
 
 func (c *Config) IsByz(i int) bool {
@@ -41,6 +48,9 @@ func (c *Config) Honest() []int {
 }
 func (c *Config) IsDealer(i int) bool { return c.Proto == JF || i == c.Dealer }
 func (c *Config) String() string {
+	if c.Net != 0 {
+		return fmt.Sprintf("%s(n=%d,t=%d,dealer=%d,byz=%v,net=%s)", c.Proto, c.N, c.T, c.Dealer, c.Byz, [...]string{"", "answers-next-round", "complaints-next-round", "answers+complaints-next-round"}[c.Net&3])
+	}
 	return fmt.Sprintf("%s(n=%d,t=%d,dealer=%d,byz=%v)", c.Proto, c.N, c.T, c.Dealer, c.Byz)
 }
 
@@ -121,6 +131,10 @@ type State struct {
 	Phase   int     // 1,2,3 while running; 4 after End
 	Q       [][]Msg // index (recv*N+sender)*2+chan
 	Held    []Msg   // "late" messages released at the start of the next phase
+	HeldHonest []Msg // reactive honest broadcasts that land in the next round (Cfg.Net)
+	// Reactive records (for the caller) which kinds of honest reactive broadcasts occurred so far:
+	// bit 0 an answer in round 1 or 2, bit 1 a complaint in round 1. Not part of the canonical state.
+	Reactive int
 	Results []*Result
 	zshare  map[[2]int][]byte // share payload Z dealt to r (for premature answers)
 	Undelivered int
@@ -159,6 +173,7 @@ func (s *State) shallow() *State {
 	n.Shadows = append([]*Node(nil), s.Shadows...)
 	n.Q = append([][]Msg(nil), s.Q...)
 	n.Held = append([]Msg(nil), s.Held...)
+	n.HeldHonest = append([]Msg(nil), s.HeldHonest...)
 	return &n
 }
 
@@ -204,9 +219,42 @@ func (s *State) Hash() [32]byte {
 		h.Write([]byte(x))
 		h.Write([]byte{0})
 	}
+	w(-5)
+	for _, m := range s.HeldHonest {
+		w(m.From)
+		w(len(m.Data))
+		h.Write(m.Data)
+	}
 	var o [32]byte
 	copy(o[:], h.Sum(nil))
 	return o
+}
+
+// routeReactive routes what honest participant i emitted while handling a delivery.
+func (s *State) routeReactive(i int, out []Msg, evs *[]Event) {
+	if s.Cfg.IsByz(i) {
+		s.routeOut(i, out, evs)
+		return
+	}
+	for _, m := range out {
+		if m.Bcast() && len(m.Data) > 0 {
+			switch {
+			case m.Data[0] == tagAnswer && s.Phase <= 2:
+				s.Reactive |= 1
+				if s.Cfg.Net&1 != 0 {
+					s.HeldHonest = append(s.HeldHonest, m)
+					continue
+				}
+			case m.Data[0] == tagCmp && s.Phase == 1:
+				s.Reactive |= 2
+				if s.Cfg.Net&2 != 0 {
+					s.HeldHonest = append(s.HeldHonest, m)
+					continue
+				}
+			}
+		}
+		s.send(m, evs)
+	}
 }
 
 // Init builds the initial state: all participants constructed and started (phase 1).
@@ -519,7 +567,7 @@ func (s *State) Apply(t Trans) (*State, []Event) {
 		nd, out, e := n.localDeliver(n.Nodes[t.Recv], m, t.Chan)
 		n.Nodes[t.Recv] = nd
 		evs = append(evs, e...)
-		n.routeOut(t.Recv, out, &evs)
+		n.routeReactive(t.Recv, out, &evs)
 		return n, evs
 	}
 	// barrier: every participant's timeout / End
@@ -536,6 +584,13 @@ func (s *State) Apply(t Trans) (*State, []Event) {
 			outs[i] = out
 		}
 		n.Phase++
+		// reactive honest broadcasts of the round that just ended land now, ahead of what their
+		// senders emit at the timeout (per-sender FIFO)
+		hh := n.HeldHonest
+		n.HeldHonest = nil
+		for _, m := range hh {
+			n.send(m, &evs)
+		}
 		for i := 0; i < n.Cfg.N; i++ {
 			n.routeOut(i, outs[i], &evs)
 		}
